@@ -24,6 +24,7 @@ KF_C_VECTOR = "c-only-vector-argument"
 KF_PYVECSTR = "python-vector-of-strings-argument"
 KF_LUA_CPPIF = "lua-ignores-cpp-if"
 KF_PY_SAMENAME = "python-same-class-name-in-two-namespaces"
+KF_PY_CLASSVAL = "python-class-result-by-value"
 FINDING_LIBS = [
     # (key, library, header name, header text, options, file expected not to compile)
     (KF_LUA_CHARP, {"library": "fl1", "cxx_header": "fl1.hpp", "declarations": [{"decl": "int cstr(const char *t)"}]},
@@ -43,6 +44,10 @@ FINDING_LIBS = [
                                        {"decl": "namespace beta", "declarations": [{"decl": "class Item", "declarations": [{"decl": "Item()"}, {"decl": "int get() const"}]}]}]},
      "fl5.hpp", "#pragma once\nnamespace alpha { class Item { public: Item(); int get() const; }; }\nnamespace beta { class Item { public: Item(); int get() const; }; }\n",
      dict(wrap_c=True, wrap_fortran=True, wrap_python=True, wrap_lua=False), None),
+    (KF_PY_CLASSVAL, {"library": "fl6", "cxx_header": "fl6.hpp",
+                      "declarations": [{"decl": "class Stamp", "declarations": [{"decl": "Stamp()"}, {"decl": "int get() const"}]}, {"decl": "Stamp currentStamp()"}]},
+     "fl6.hpp", "#pragma once\nclass Stamp { public: Stamp(); int get() const; };\nStamp currentStamp();\n",
+     dict(wrap_c=True, wrap_fortran=True, wrap_python=True, wrap_lua=False), "pyfl6module.cpp"),
 ]
 
 GEN = {
@@ -65,6 +70,10 @@ GEN = {
                                                  {"decl": "const std::string &label() const"}]},
         {"decl": "enum Mode { ONE, TWO = 5 }"},
         {"decl": "Mode mode(Mode m)"},
+        # defaulted arguments whose conversion declares a C++ local (enum cast, std::string): one scope per case of the Python switch
+        {"decl": "int paint(int n, Mode c = ONE)"},
+        {"decl": "int label2(int n, const std::string &name = \"x\")"},
+        {"decl": "int both(Mode c = TWO, const std::string &name = \"y\", int k = 3)"},
         {"decl": "namespace inner", "declarations": [{"decl": "int deep(int x)"}]},
     ],
 }
@@ -117,6 +126,7 @@ class Thing { public: Thing(); Thing(int n, int fill = 3); ~Thing(); double val(
   int stats(int *count, int scale) const; int last(int scale, int *count) const; int tally(int *total, int step) const; };
 enum Mode { ONE, TWO = 5 };
 Mode mode(Mode m);
+int paint(int n, Mode c = ONE); int label2(int n, const std::string &name = "x"); int both(Mode c = TWO, const std::string &name = "y", int k = 3);
 namespace inner { int deep(int x); }
 '''
 GENC = {
@@ -203,6 +213,10 @@ def gen_matrix(quick, rng):
         o.update(dc)
         o.update(ln)
         o.update(cf)
+        if ws["wrap_python"]:
+            # numpy is not installed here: sources that use it are skipped by the compile step, so the Python wrappers are
+            # generated in list mode (every Python source of the generated libraries is then compiled)
+            o["PY_array_arg"] = "list"
         combos.append(o)
     if quick:
         combos = [combos[0]] + rng.sample(combos[1:], 9)
